@@ -343,7 +343,9 @@ class Reporter:
         self.n += 1
         key = (carrier, clause)
         self.counts[key] = self.counts.get(key, 0) + 1
-        if self.counts[key] <= MAX_REPORTS:
+        told = self.counts.setdefault(("reported",) + key, [])  # start trees already reported for this clause
+        if len(told) < MAX_REPORTS and self.spec["pid"] not in told:
+            told.append(self.spec["pid"])
             ops = json.loads(json.dumps(self.ops))
             self.ctx.violation(carrier, clause, dict(pid=self.spec["pid"], ops=ops), observed, expected, dict(tree=self.spec, ops=ops))
 
@@ -418,6 +420,7 @@ def check_step(rep, step, op, t, earlier, scratch=None):
     # 4. edits of the result do not leak into the inputs
     if not same_obj:
         rsnap = snapshot_tree(res)
+        watched[:] = [(x, snapshot_tree(x), what) for x, _, what in watched]  # re-baseline: report only what the edit below leaks
         try:
             mutate_everything(res)
         except Exception as e:
@@ -448,6 +451,7 @@ def run_pipeline(ctx, counts, start, ops, scratch=None):
         res = check_step(rep, i, op, t, earlier, scratch)
         if res is None:
             break
+        earlier = [(x, snapshot_tree(x)) for x, _ in earlier]  # re-baseline: a leak is charged to the step that caused it
         if res is not t:
             earlier.append((t, snapshot_tree(t)))
         t = res
@@ -473,6 +477,7 @@ def sample_pipeline(ctx, counts, start, length, rng, scratch):
         res = check_step(rep, i, op, t, earlier, scratch)
         if res is None:
             break
+        earlier = [(x, snapshot_tree(x)) for x, _ in earlier]  # re-baseline: a leak is charged to the step that caused it
         if res is not t:
             earlier.append((t, snapshot_tree(t)))
         t = res
@@ -519,11 +524,10 @@ def run(ctx):
             length = rng.choice([2, 3, 3])
             ops, _nv = sample_pipeline(ctx, counts, make_tree(pid), length, rng, scratch)
             ctx.case("pipeline", dict(pid=list(pid), ops=ops), nontrivial=len(pid) >= 2 and len(ops) >= 2)
-        suppressed = {f"{c}/{cl}": k - MAX_REPORTS for (c, cl), k in sorted(counts.items()) if k > MAX_REPORTS}
-        if counts:
-            ctx.notes.append("C03 violation counts per (carrier, clause): " + ", ".join(f"{c}/{cl}={k}" for (c, cl), k in sorted(counts.items())))
-        if suppressed:
-            ctx.notes.append(f"C03: further occurrences not reported individually: {suppressed}")
+        totals = {k: v for k, v in counts.items() if len(k) == 2}
+        if totals:
+            ctx.notes.append("C03 failing evaluations per (carrier, clause), at most " + str(MAX_REPORTS) + " start trees of each reported individually: "
+                             + ", ".join(f"{c}/{cl}={k}" for (c, cl), k in sorted(totals.items())))
         ctx.rule(f"every sorted parent table with <= {nmax} nodes (root type 1, deterministic walk coordinates) x {len(ALL_OPS)} operations x every argument of a finite "
                  "admissible grid (all node ids, all subsets of non-root removals, sort/translate flags, all second operands <= 3 nodes, occurring types, "
                  f"3-4 thresholds/angles/orders, 14 Transforms compositions) -- exhaustive over that grid; plus {n_pipelines} seeded pipelines of length 2..3 with arguments "
